@@ -24,7 +24,7 @@ impl<'a> StateMachine<'a> {
     //@ fn src/delta.rs StateMachine::should_handle spec=delta.should_handle
     //@ fn src/delta.rs StateMachine::should_skip_line spec=delta.should_skip_line
     //@ fn src/delta.rs StateMachine::emit_line_unchanged spec=delta.emit_line_unchanged
-    //@before <<<let handled_line = true;>>>| proof { lemma_hist_lines_push(old(self).painter.writer.hist().push(Ev::Flush(old(self).painter.output_buffer@)), Ev::Text(frl_spec(self.raw_line@, self.config), true)); }
+    //@before <<<let handled_line =>>>| proof { lemma_hist_lines_push(old(self).painter.writer.hist().push(Ev::Flush(old(self).painter.output_buffer@)), Ev::Text(frl_spec(self.raw_line@, self.config), true)); }
 }
 
 } // verus!
